@@ -11,6 +11,7 @@ pub mod c07;
 pub mod c10;
 pub mod c11;
 pub mod c11_sys;
+pub mod c12;
 
 pub struct Property {
     pub id: &'static str,
@@ -27,5 +28,6 @@ pub fn registry() -> Vec<Property> {
         Property { id: "C07", run: c07::run, subs: c07::subs },
         Property { id: "C10", run: c10::run, subs: c10::subs },
         Property { id: "C11", run: c11::run, subs: c11::subs },
+        Property { id: "C12", run: c12::run, subs: c12::subs },
     ]
 }
